@@ -114,7 +114,9 @@ def make_str(n: int, fill: str, seed: int) -> str:
 
 def make_body(case):
     if case["btype"] == "bytes":
-        return make_bytes(case["n"], case["fill"], case["seed"])
+        b = make_bytes(case["n"], case["fill"], case["seed"])
+        # any bytes-like object a handler may return (bytearray, memoryview / BytesIO.getbuffer()): the same bytes on the wire
+        return b if case["seed"] % 3 == 0 else bytearray(b) if case["seed"] % 3 == 1 else memoryview(b)
     return make_str(case["n"], case["fill"], case["seed"])
 
 
